@@ -268,6 +268,10 @@ theorem saveStep_hit (s : St B V) (l v : Nat) (x : V) (h : T.viewOfMain l = some
           fun p => !(p.1 == v && (T.view v).restores.contains p.2) } := by
   simp [saveStep, h, hp, writeDeps, popSt]
 
+theorem save_live (hl : LiveLoop T = true) (s : St B V) : save T C s = T.order.foldl (saveStep T C) s := by
+  have : T.snapshot = false := by simpa [LiveLoop] using hl
+  simp [save, this]
+
 /-- cached views are valid and not before position `i` of the rebuild order. -/
 def InvP (i : Nat) (s : St B V) : Prop := ∀ x, s.parsed x ≠ none → x < T.n ∧ i ≤ T.pos x
 
@@ -460,7 +464,7 @@ theorem init_inv (raw₀ : Nat → B) :
 
 /-- all three flush invariants hold after `save` of any sequence of reads. -/
 theorem flush_all (hwf : WF T = true) (hw : WritesAll T = true) (ht : Topo T = true) (hb : BorrowOK T = true)
-    (raw₀ : Nat → B) (xs : List Nat) (hxs : ∀ u ∈ xs, u < T.n) :
+    (hl : LiveLoop T = true) (raw₀ : Nat → B) (xs : List Nat) (hxs : ∀ u ∈ xs, u < T.n) :
     (∀ v, (save T C (accesses T C xs (init raw₀))).parsed v = none) ∧
     (∀ l, (save T C (accesses T C xs (init raw₀))).clr l = false) ∧
     (save T C (accesses T C xs (init raw₀))).lost = [] ∧
@@ -468,9 +472,7 @@ theorem flush_all (hwf : WF T = true) (hw : WritesAll T = true) (ht : Topo T = t
   obtain ⟨a1, a2, a3⟩ := init_inv (V := V) T raw₀
   obtain ⟨b1, b2, b3⟩ := accesses_inv T C hwf xs hxs _ a1 a2 a3
   obtain ⟨c1, c2, c3⟩ := save_inv_aux T C hwf hw ht hb T.order [] _ (by simp) (by simpa using b1) b2 b3
-  change InvP T T.order.length (save T C (accesses T C xs (init raw₀))) at c1
-  change InvC T [] (save T C (accesses T C xs (init raw₀))) at c2
-  change InvB T T.n (save T C (accesses T C xs (init raw₀))) at c3
+  rw [← save_live T C hl] at c1 c2 c3
   have hnone : ∀ v, (save T C (accesses T C xs (init raw₀))).parsed v = none := by
     intro v
     cases hpv : (save T C (accesses T C xs (init raw₀))).parsed v with
@@ -712,7 +714,7 @@ theorem saveStep_invE (hwf : WF T = true) (ht : Topo T = true) (hfr : Frame T = 
 /-- **content**: after reading any views and saving, `E` is still the parse of the raw lumps, and lumps
 owned by no view are byte-identical. -/
 theorem content_all (hwf : WF T = true) (ht : Topo T = true) (hfr : Frame T = true) (hra : RAcyclic T = true)
-    (L : Laws T C) (raw₀ : Nat → B) (E : Nat → V) (hE : IsEnv T C raw₀ E)
+    (hl : LiveLoop T = true) (L : Laws T C) (raw₀ : Nat → B) (E : Nat → V) (hE : IsEnv T C raw₀ E)
     (xs : List Nat) (hxs : ∀ u ∈ xs, u < T.n) :
     InvE T C raw₀ E T.n (save T C (accesses T C xs (init raw₀))) := by
   have h0 : InvE T C raw₀ E T.n (init raw₀ : St B V) :=
@@ -725,7 +727,7 @@ theorem content_all (hwf : WF T = true) (ht : Topo T = true) (hfr : Frame T = tr
     refine foldl_inv (InvE T C raw₀ E T.n) _ xs _ h0 (fun a u hu ha => ?_)
     exact access_invE T C hfr hra L raw₀ E T.n (· < T.n) closed (fun _ h => h) (by omega) T.fuel u a (hxs u hu)
       (by have := (racyclic_spec T hra u (hxs u hu)).1; unfold Tables.fuel; omega) ha
-  unfold save
+  rw [save_live T C hl]
   exact foldl_inv (InvE T C raw₀ E T.n) _ T.order _ h1
     (fun a l _ ha => saveStep_invE T C hwf ht hfr hra L raw₀ E hE l a ha)
 
@@ -798,9 +800,10 @@ theorem saveStep_sh (s s' : St B V) (l : Nat) (h : Sh s s') : Sh (saveStep T C s
           foldl_rel Sh _ _ _ _ _ h0 (fun a c b _ hac => access_sh T C T.fuel b a c hac)
         exact ⟨fun w => h1.1 w, fun w => h1.2 w⟩
 
-theorem run_sh (xs : List Nat) (r r' : Nat → B) :
+theorem run_sh (hl : LiveLoop T = true) (xs : List Nat) (r r' : Nat → B) :
     Sh (save T C (accesses T C xs (init r))) (save T C (accesses T C xs (init (V := V) r'))) := by
-  unfold save accesses
+  rw [save_live T C hl, save_live T C hl]
+  unfold accesses
   apply foldl_rel Sh _ _ _ _ _ _ (fun a c l _ hac => saveStep_sh T C a c l hac)
   apply foldl_rel Sh _ _ _ _ _ _ (fun a c u _ hac => access_sh T C T.fuel u a c hac)
   exact ⟨fun _ => rfl, fun _ => rfl⟩
@@ -931,7 +934,7 @@ theorem saveStep_invK (hwf : WF T = true) (hw : WritesAll T = true) (ht : Topo T
 
 /-- both invariants after a whole run. -/
 theorem run_invK (hwf : WF T = true) (hw : WritesAll T = true) (ht : Topo T = true) (hfr : Frame T = true)
-    (hra : RAcyclic T = true) (L : Laws T C) (hcan : Canon T C) (raw₀ : Nat → B) (E : Nat → V)
+    (hra : RAcyclic T = true) (hl : LiveLoop T = true) (L : Laws T C) (hcan : Canon T C) (raw₀ : Nat → B) (E : Nat → V)
     (hE : IsEnv T C raw₀ E) (xs : List Nat) (hxs : ∀ u ∈ xs, u < T.n) :
     InvK T C raw₀ E (save T C (accesses T C xs (init raw₀))) := by
   have e0 : InvE T C raw₀ E T.n (init raw₀ : St B V) :=
@@ -947,7 +950,7 @@ theorem run_invK (hwf : WF T = true) (hw : WritesAll T = true) (ht : Topo T = tr
     exact ⟨access_invE T C hfr hra L raw₀ E T.n (· < T.n) closed (fun _ h => h) (by omega) T.fuel u a (hxs u hu)
         (by have := (racyclic_spec T hra u (hxs u hu)).1; unfold Tables.fuel; omega) ha.1,
       access_invK T C hfr raw₀ E (· < T.n) closed (fun _ h => h) T.fuel u a (hxs u hu) ha.2⟩
-  unfold save
+  rw [save_live T C hl]
   exact (foldl_inv (fun s' => InvE T C raw₀ E T.n s' ∧ InvK T C raw₀ E s') _ T.order _ h1
     (fun a l _ ha => ⟨saveStep_invE T C hwf ht hfr hra L raw₀ E hE l a ha.1,
       saveStep_invK T C hwf hw ht hfr hra L hcan raw₀ E l a ha.1 ha.2⟩)).2
@@ -959,21 +962,21 @@ theorem owned_spec (l : Nat) (h : T.owned l = true) : ∃ v, v < T.n ∧ l ∈ (
 
 /-- **a second save is byte-identical**: re-open the saved lumps, read the same views, save again. -/
 theorem idem_bytes (hwf : WF T = true) (hw : WritesAll T = true) (ht : Topo T = true) (hfr : Frame T = true)
-    (hra : RAcyclic T = true) (hb : BorrowOK T = true) (L : Laws T C) (hcan : Canon T C)
+    (hra : RAcyclic T = true) (hb : BorrowOK T = true) (hl : LiveLoop T = true) (L : Laws T C) (hcan : Canon T C)
     (raw₀ : Nat → B) (E : Nat → V) (hE : IsEnv T C raw₀ E) (xs : List Nat) (hxs : ∀ u ∈ xs, u < T.n) (l : Nat) :
     (save T C (accesses T C xs (init (V := V) (save T C (accesses T C xs (init raw₀))).raw))).raw l
       = (save T C (accesses T C xs (init raw₀))).raw l := by
   -- first run
-  obtain ⟨_, e1b, e1c⟩ := content_all T C hwf ht hfr hra L raw₀ E hE xs hxs
-  obtain ⟨n1, c1, _, _⟩ := flush_all T C hwf hw ht hb raw₀ xs hxs
+  obtain ⟨_, e1b, e1c⟩ := content_all T C hwf ht hfr hra hl L raw₀ E hE xs hxs
+  obtain ⟨n1, c1, _, _⟩ := flush_all T C hwf hw ht hb hl raw₀ xs hxs
   have hE1 : IsEnv T C (save T C (accesses T C xs (init raw₀))).raw E :=
     fun v hv => e1b v hv (by omega) (n1 v)
-  have k1 := run_invK T C hwf hw ht hfr hra L hcan raw₀ E hE xs hxs
+  have k1 := run_invK T C hwf hw ht hfr hra hl L hcan raw₀ E hE xs hxs
   -- second run
-  obtain ⟨_, _, e2c⟩ := content_all T C hwf ht hfr hra L _ E hE1 xs hxs
-  obtain ⟨_, c2, _, _⟩ := flush_all T C hwf hw ht hb (save T C (accesses T C xs (init (V := V) raw₀))).raw xs hxs
-  have k2 := run_invK T C hwf hw ht hfr hra L hcan _ E hE1 xs hxs
-  have hsh := run_sh T C xs raw₀ (save T C (accesses T C xs (init (V := V) raw₀))).raw
+  obtain ⟨_, _, e2c⟩ := content_all T C hwf ht hfr hra hl L _ E hE1 xs hxs
+  obtain ⟨_, c2, _, _⟩ := flush_all T C hwf hw ht hb hl (save T C (accesses T C xs (init (V := V) raw₀))).raw xs hxs
+  have k2 := run_invK T C hwf hw ht hfr hra hl L hcan _ E hE1 xs hxs
+  have hsh := run_sh T C hl xs raw₀ (save T C (accesses T C xs (init (V := V) raw₀))).raw
   cases ho : T.owned l with
   | false => exact e2c l ho
   | true =>
